@@ -55,6 +55,11 @@ def check(an: Analysis) -> None:
             ev = next((k.value for k in c.keywords if k.arg == exc_kw), None)
             if has_exc and not is_name(ev, "exception"):
                 ob1.fail(f, c, f"{name} drops the exception (stack trace not recorded)")
+        # no path returns without emitting (level filtering is the logger's business, and it is the *scope's* logger that decides)
+        emit_nodes = [n for n in g.nodes if n.kind == "call" and (n.ast is scoped[0] or n.ast is root[0])]
+        w = g.must_pass(lambda n: n in emit_nodes, exits=("exit-return",))
+        if w is not None:
+            ob1.fail(f, w[-2].ast if len(w) > 1 and w[-2].ast is not None else None, f"{name} can return without handing the message to a logger: a line the scope's logger would accept is silently dropped", CFG.show_path(w))
         # scoped emission goes to the current scope
         recv = scoped[0].func.value  # type: ignore[union-attr]
         if not (isinstance(recv, ast.Call) and an.callee(f, recv) == "contextvars.ContextVar.get" and c02.contextvar_owner(an, f, recv.func.value) == prog.cls(MC).qualname and not recv.args):  # type: ignore[union-attr]
@@ -114,9 +119,228 @@ def check(an: Analysis) -> None:
         nm = next((k.value for k in c.keywords if k.arg == "scope"), None)
         if not is_name(nm, scope.param_names()[1]):
             ob3.fail(scope, c, "the scope name is not passed on")
+    for row in evaluate_scope_construction(an):
+        situation, cn, kw, fl, ft, given_logger, given_tid, has_current = row["situation"], row["ctor"], row["kw"], row["logger"], row["trace_id"], row["given_logger"], row["given_tid"], row["has_current"]
+        if cn is None:
+            ob3.fail(scope, ctors[0], f"no ScopeMetrics is built with {situation}")
+            continue
+        want_l = "GIVEN" if given_logger else (("current", "_logger") if has_current else ("named", NAME))
+        want_t = "T1" if given_tid else (("current", "trace_id") if has_current else "FRESH")
+        if fl != want_l:
+            ob3.fail(scope if kw["logger"] != want_l and not (kw["logger"] is None) else init, cn.ast if kw["logger"] != want_l and kw["logger"] is not None else lv[0], f"with {situation} the scope logs through {_show(fl)} instead of {_show(want_l)}")
+        if ft != want_t:
+            ob4.fail(scope if kw["trace_id"] != want_t and not (kw["trace_id"] is None) else init, cn.ast if kw["trace_id"] != want_t and kw["trace_id"] is not None else tv[0], f"with {situation} the scope's trace id is {_show(ft)} instead of {_show(want_t)}")
+    if not (isinstance(iv[0], ast.Attribute) and iv[0].attr == "hex" and isinstance(iv[0].value, ast.Call) and an.callee(init, iv[0].value) == "uuid.uuid4"):
+        ob4.fail(init, iv[0], "the scope identifier is not a fresh uuid4().hex")
+
+    # ------------------------------------------------------------------ C19.5 tag contents and emission / C19.6 formatting characters
+    ob = an.ob("C19.5", "K5 text flow", "the text handed to the logger is composed of trace id, identifier, (when non-empty) the scope name and the message - followed through locals, attributes prepared in __init__, f-strings, +, join, format; ScopeMetrics.log emits it through self._logger.log(level, ..., *args, exc_info=exception) on every path", [f"{SM}.__init__", f"{SM}.log"])
+    ob6 = an.ob("C19.6", "taint K5+K10", "scope name / trace id (untrusted text) are never *interpreted*: not in the %-format string of Logger.log unescaped when format arguments are passed (API_FACT 9), never in a str.format / % template", [f"{SM}.log"])
+    emits = calls_to(an, slog, "logging.Logger.log")
+    dl = Deps(prog, slog)
+    lp = slog.param_names()
+    if len(emits) != 1:
+        ob.fail(slog, None, f"ScopeMetrics.log emits {len(emits)} records per call (must be exactly one)")
+    else:
+        from ..kinds import normal_only
+
+        gl = an.cfg(slog)
+        en = [n for n in gl.nodes if n.kind == "call" and n.ast is emits[0]]
+        w = gl.must_pass(lambda n: n in en, exits=("exit-return",), skip_edge=normal_only)
+        if w is not None:
+            ob.fail(slog, emits[0], "a path through ScopeMetrics.log returns without handing the record to the logger (level filtering belongs to the logger at call time): a message the logger would accept is lost", CFG.show_path(w))
+    for c in emits:
+        ob.inst(slog, c)
+        ob6.inst(slog, c)
+        if dotted(c.func.value) != "self._logger":  # type: ignore[union-attr]
+            ob.fail(slog, c, "the record does not go to the scope's logger")
+        ok = len(c.args) == 3 and is_name(c.args[0], lp[1]) and isinstance(c.args[2], ast.Starred) and is_name(c.args[2].value, slog.node.args.vararg.arg)
+        ev = next((k.value for k in c.keywords if k.arg == "exc_info"), None)
+        if not ok or not is_name(ev, "exception"):
+            ob.fail(slog, c, "level / *args / exception are not passed on to the logger unchanged")
+        if len(c.args) < 2:
+            continue
+        for named in (True, False):
+            for has_args in (True, False):
+                tf = TextFlow(an, slog, init, named, has_args)
+                leaves = tf.leaves(c.args[1], slog)
+                if leaves is None:
+                    raise AnalysisError("C19.5: the text handed to the logger could not be followed to its parts")
+                names = [x.name for x in leaves]
+                need = ["self.trace_id", "self.identifier", "message"] + (["scope"] if named else [])
+                lacking = [x for x in need if x not in names]
+                ob.inst(slog, c, f"{'named' if named else 'nameless'} scope, {'with' if has_args else 'without'} format arguments: parts {sorted(set(names))}")
+                if lacking:
+                    what = "log prefix" if "message" not in lacking else "emitted text"
+                    ob.fail(slog, c, f"the {what} of a {'named' if named else 'nameless'} scope lacks {sorted(x for x in lacking)}" + ("" if "message" not in lacking else ": the emitted text does not contain both the scope prefix and the message"))
+                elif max(i_ for i_, x in enumerate(names) if x in ("self.trace_id", "self.identifier", "scope")) > min(i_ for i_, x in enumerate(names) if x == "message") and not any(x.brace_template for x in leaves):
+                    ob.fail(slog, c, "the message is not prefixed by the scope tag")
+                untrusted = [x for x in leaves if x.name in ("scope", "self.trace_id", "trace_id")]
+                if has_args and any(not x.pct_escaped for x in untrusted):
+                    ob6.fail(slog, c, "a `%` in the scope name or trace id corrupts %-formatting when the message has arguments: the line is lost (e.g. scope '100%s done', ctx.log_info('x %s', 'y'))")
+                if any(x.brace_template or x.pct_template for x in untrusted):
+                    ob6.fail(slog, c, "the scope name / trace id is part of a str.format (or %) *template*: a `{`, `}` (or `%`) in a scope name makes every log call - and entering the scope, which logs - raise or mangles the tag")
+
+
+class _Leaf:
+    def __init__(self, name: str, pct_escaped: bool, brace_template: bool, pct_template: bool) -> None:
+        self.name, self.pct_escaped, self.brace_template, self.pct_template = name, pct_escaped, brace_template, pct_template
+
+    def __repr__(self) -> str:
+        return f"<{self.name}{' esc' if self.pct_escaped else ''}{' {}tpl' if self.brace_template else ''}{' %tpl' if self.pct_template else ''}>"
+
+
+class TextFlow:
+    """Follows how the text given to Logger.log is composed, from ScopeMetrics.log back into what __init__ prepared:
+    leaves are `self.trace_id`, `self.identifier`, `scope` (the scope name), `message`, other names; each leaf records
+    whether it went through .replace('%', '%%') and whether it ended up in the *template* position of str.format / %."""
+
+    def __init__(self, an: Analysis, slog: FunctionInfo, init: FunctionInfo, named: bool, has_args: bool) -> None:
+        from ..kinds import Scenario
+
+        self.an, self.slog, self.init = an, slog, init
+        prog = an.prog
+        self.cls = prog.cls(SM)
+        argsname = slog.node.args.vararg.arg if slog.node.args.vararg else ""
+
+        def base_log(x: ast.AST):
+            if is_name(x, argsname):
+                return ["arg"] if has_args else []
+            return NOVALUE
+
+        def base_init(x: ast.AST):
+            if is_name(x, "scope"):
+                return "name" if named else ""
+            return NOVALUE
+
+        self.ctx = {
+            slog.qualname: (an.cfg(slog), Deps(prog, slog), None),
+            init.qualname: (an.cfg(init), Deps(prog, init), None),
+        }
+        self.sc = {
+            slog.qualname: Scenario(self.ctx[slog.qualname][0], self.ctx[slog.qualname][1], base_log),
+            init.qualname: Scenario(self.ctx[init.qualname][0], self.ctx[init.qualname][1], base_init),
+        }
+        self.message = slog.param_names()[2] if len(slog.param_names()) > 2 else "message"
+
+    def leaves(self, e: ast.AST | None, fn: FunctionInfo, esc: bool = False, brace: bool = False, pct: bool = False, depth: int = 10) -> list[_Leaf] | None:
+        e = unwrap(e) if e is not None else None
+        if e is None or depth < 0:
+            return None
+        g, d, _ = self.ctx[fn.qualname]
+        sc = self.sc[fn.qualname]
+
+        def many(xs, **kw) -> list[_Leaf] | None:
+            out: list[_Leaf] = []
+            for x in xs:
+                sub = self.leaves(x, fn, kw.get("esc", esc), kw.get("brace", brace), kw.get("pct", pct), depth - 1)
+                if sub is None:
+                    return None
+                out += sub
+            return out
+
+        if isinstance(e, ast.Constant):
+            return []
+        if isinstance(e, ast.JoinedStr):
+            return many([v.value for v in e.values if isinstance(v, ast.FormattedValue)])
+        if isinstance(e, ast.FormattedValue):
+            return many([e.value])
+        if isinstance(e, ast.BinOp) and isinstance(e.op, ast.Add):
+            return many([e.left, e.right])
+        if isinstance(e, ast.BinOp) and isinstance(e.op, ast.Mod):
+            a = many([e.left], pct=True)
+            b = many([e.right])
+            return None if a is None or b is None else a + b
+        if isinstance(e, ast.IfExp):
+            t = eval_expr(e.test, sc.env)
+            return many([e.body, e.orelse]) if t is NOVALUE else many([e.body if t else e.orelse])
+        if isinstance(e, (ast.List, ast.Tuple)):
+            return many(e.elts)
+        if isinstance(e, ast.Starred):
+            return many([e.value])
+        if isinstance(e, ast.Call) and isinstance(e.func, ast.Attribute):
+            recv, attr = e.func.value, e.func.attr
+            if attr == "replace" and len(e.args) == 2 and isinstance(e.args[0], ast.Constant) and e.args[0].value == "%" and isinstance(e.args[1], ast.Constant) and e.args[1].value == "%%":
+                return many([recv], esc=True)
+            if attr in ("format", "format_map"):
+                a = many([recv], brace=True)
+                b = many([*e.args, *[k.value for k in e.keywords]])
+                return None if a is None or b is None else a + b
+            if attr == "join" and len(e.args) == 1:
+                return many([e.args[0]])
+            if attr in ("strip", "lstrip", "rstrip", "replace", "lower", "upper", "ljust", "rjust", "center"):
+                return many([recv])
+        if isinstance(e, ast.Call) and isinstance(e.func, ast.Name) and e.func.id in ("str", "repr", "format") and e.args:
+            return many(e.args[:1])
+        if isinstance(e, ast.Name):
+            if fn is self.slog and e.id == self.message:
+                return [_Leaf("message", esc, brace, pct)]
+            if fn is self.init and e.id == "scope":
+                return [_Leaf("scope", esc, brace, pct)]
+            if fn is self.init and e.id == "trace_id":
+                return [_Leaf("trace_id", esc, brace, pct)]
+            if d.owner(e.id) is not None:
+                vals = list(sc.values_of(e.id))
+                if not vals and (sv := d.single_value(e.id)) is not None:
+                    vals = [sv]
+                # a list of parts filled step by step
+                for n_ in g.nodes:
+                    if n_.kind == "call" and n_.id in sc.reach and isinstance(n_.ast.func, ast.Attribute) and n_.ast.func.attr in ("append", "extend", "insert") and is_name(n_.ast.func.value, e.id):  # type: ignore[union-attr]
+                        vals += list(n_.ast.args)  # type: ignore[union-attr]
+                if vals:
+                    return many(vals)
+            return [_Leaf(e.id, esc, brace, pct)]
+        if isinstance(e, ast.Attribute) and is_name(e.value, "self"):
+            if e.attr in ("trace_id", "identifier"):
+                return [_Leaf(f"self.{e.attr}", esc, brace, pct)]
+            if e.attr == "label":
+                return [_Leaf("scope", esc, brace, pct)]
+            vals = self.cls.attr_val.get(e.attr, [])
+            if vals and fn is not self.init:
+                out: list[_Leaf] = []
+                for v in vals:
+                    sub = self.leaves(v, self.init, esc, brace, pct, depth - 1)
+                    if sub is None:
+                        return None
+                    out += sub
+                return out
+            if vals:
+                return many(vals)
+            return [_Leaf(f"self.{e.attr}", esc, brace, pct)]
+        if isinstance(e, ast.Call):
+            return many([*e.args, *[k.value for k in e.keywords]])
+        return [_Leaf(dotted(e) or type(e).__name__, esc, brace, pct)]
+
+
+NAME = ("the scope name",)
+
+
+def evaluate_scope_construction(an: Analysis) -> list[dict]:
+    """End-to-end evaluation of MetricsContext.scope -> ScopeMetrics(...) -> the attributes stored by __init__ for every
+    combination of {logger / trace id given or not} x {no scope current, a scope current (open), a scope current
+    (already completed)}.  One row per reachable constructor call:  situation, ctor node, evaluated constructor
+    keywords (trace_id, logger, parent, scope) and the stored _logger / trace_id values.  Values: "GIVEN", "T1", None,
+    "FRESH", ("current", <attr>), ("named", <arg>), CUR (the current scope object)."""
+    cached = getattr(an, "_scope_construction", None)
+    if cached is not None:
+        return cached
+    from ..kinds import Abs, Scenario
+
+    prog = an.prog
+    init = prog.fn(f"{SM}.__init__")
+    scope = prog.fn(f"{MC}.scope")
+    di = Deps(prog, init)
+    smc = prog.cls(SM)
+    lv = smc.attr_val.get("_logger", [])
+    tv = smc.attr_val.get("trace_id", [])
+    gsc = an.cfg(scope)
+    gin = an.cfg(init)
+    ds = Deps(prog, scope)
+    ctors = calls_to(an, scope, smc.qualname)
+    rows: list[dict] = []
     gets = [n for n in gsc.nodes if n.kind == "call" and an.callee(scope, n.ast) == "contextvars.ContextVar.get" and c02.contextvar_owner(an, scope, n.ast.func.value) == prog.cls(MC).qualname]  # type: ignore[union-attr]
     if not gets:
-        ob3.missing(scope, None, "MetricsContext.scope never looks the current scope up: nothing can be inherited")
+        raise AnalysisError("C19.3: MetricsContext.scope never looks the current scope up")
     CUR = Abs("ScopeMetrics", "object", tag="current")
 
     def stmt_node(g_: CFG, value: ast.AST):
@@ -169,7 +393,6 @@ def check(an: Analysis) -> None:
         holder.append(sc)
         return sc.solve()
 
-    NAME = ("the scope name",)
     for given_logger in ("GIVEN", None):
         for given_tid in ("T1", None):
             for has_current, parent_done in ((False, None), (True, False), (True, True)):
@@ -177,7 +400,7 @@ def check(an: Analysis) -> None:
                 sc1 = stage(gsc, ds, scope, {"trace_id": given_tid, "logger": given_logger, scope.param_names()[1]: NAME}, has_current, parent_done)
                 live = [n for n in gsc.nodes if n.kind == "call" and n.ast in ctors and n.id in sc1.reach]
                 if not live:
-                    ob3.fail(scope, ctors[0], f"no ScopeMetrics is built with {situation}")
+                    rows.append({"situation": situation, "ctor": None, "kw": {}, "logger": None, "trace_id": None, "given_logger": given_logger, "given_tid": given_tid, "has_current": has_current, "parent_done": parent_done})
                     continue
                 for cn in live:
                     kw = {k.arg: sc1.value_at(cn, k.value) for k in cn.ast.keywords if k.arg}  # type: ignore[union-attr]
@@ -187,160 +410,9 @@ def check(an: Analysis) -> None:
                     fl, ft = sc2.value_at(n_logger, lv[0]), sc2.value_at(n_tid, tv[0])
                     if fl is NOVALUE or ft is NOVALUE:
                         raise AnalysisError(f"C19.3: cannot evaluate the stored logger / trace id with {situation}")
-                    want_l = "GIVEN" if given_logger else (("current", "_logger") if has_current else ("named", NAME))
-                    want_t = "T1" if given_tid else (("current", "trace_id") if has_current else "FRESH")
-                    if fl != want_l:
-                        ob3.fail(scope if kw["logger"] != want_l and not (kw["logger"] is None) else init, cn.ast if kw["logger"] != want_l and kw["logger"] is not None else lv[0], f"with {situation} the scope logs through {_show(fl)} instead of {_show(want_l)}")
-                    if ft != want_t:
-                        ob4.fail(scope if kw["trace_id"] != want_t and not (kw["trace_id"] is None) else init, cn.ast if kw["trace_id"] != want_t and kw["trace_id"] is not None else tv[0], f"with {situation} the scope's trace id is {_show(ft)} instead of {_show(want_t)}")
-    if not (isinstance(iv[0], ast.Attribute) and iv[0].attr == "hex" and isinstance(iv[0].value, ast.Call) and an.callee(init, iv[0].value) == "uuid.uuid4"):
-        ob4.fail(init, iv[0], "the scope identifier is not a fresh uuid4().hex")
-
-    # ------------------------------------------------------------------ C19.5 tag contents and emission
-    ob = an.ob("C19.5", "K5", "the prefix carries trace id, identifier and (when non-empty) the scope name; ScopeMetrics.log emits `<prefix> <message>` through self._logger.log(level, ..., *args, exc_info=exception)", [f"{SM}.__init__", f"{SM}.log"])
-    pv = prog.cls(SM).attr_val.get("_logger_prefix", [])
-    if len(pv) != 1:
-        raise AnalysisError("C19.5: expected one assignment of ScopeMetrics._logger_prefix")
-    ob.inst(init, pv[0])
-
-    def prefix_parts(e: ast.AST) -> set[str]:
-        return {dotted(n) or "" for n in ast.walk(e) if isinstance(n, (ast.Attribute, ast.Name))}
-
-    from ..kinds import Scenario
-
-    gi_ = an.cfg(init)
-
-    def ev_prefix(named: bool) -> set[str] | None:
-        def base(x: ast.AST):
-            if is_name(x, "scope"):
-                return "name" if named else ""
-            return NOVALUE
-
-        sc = Scenario(gi_, di, base)
-        exprs: list[ast.AST] = [pv[0]]
-        for _ in range(4):
-            nxt: list[ast.AST] = []
-            changed = False
-            for e in exprs:
-                e = unwrap(e)
-                if isinstance(e, ast.IfExp):
-                    t = eval_expr(e.test, sc.env)
-                    if t is NOVALUE:
-                        return None
-                    nxt.append(e.body if t else e.orelse)
-                    changed = True
-                elif isinstance(e, ast.Call) and isinstance(e.func, ast.Attribute) and e.func.attr == "join" and isinstance(e.func.value, ast.Constant) and len(e.args) == 1:
-                    nxt.append(e.args[0])  # "<sep>".join(<parts>)
-                    changed = True
-                elif isinstance(e, ast.Name) and di.owner(e.id) is not None and sc.values_of(e.id):
-                    nxt.extend(sc.values_of(e.id))
-                    # a list of parts that is filled step by step: what the reachable append / extend calls add
-                    for n_ in gi_.nodes:
-                        if n_.kind == "call" and n_.id in sc.reach and isinstance(n_.ast.func, ast.Attribute) and n_.ast.func.attr in ("append", "extend", "insert") and is_name(n_.ast.func.value, e.id):  # type: ignore[union-attr]
-                            nxt.extend(n_.ast.args)  # type: ignore[union-attr]
-                    changed = True
-                else:
-                    nxt.append(e)
-            exprs = nxt
-            if not changed:
-                break
-        parts: set[str] = set()
-        for e in exprs:
-            parts |= {x for x in prefix_parts(e)}
-            # names inside an inlined helper are substituted parameters: keep their origins too
-            for n in ast.walk(e):
-                if isinstance(n, ast.Name):
-                    oo = di.origins(n)
-                    if "param:scope" in oo:
-                        parts.add("scope")
-                    parts |= {o[5:] for o in oo if o.startswith("attr:")}
-        return parts
-
-    for named in (True, False):
-        parts = ev_prefix(named)
-        if parts is None:
-            raise AnalysisError("C19.5: unrecognised prefix expression")
-        need = {"self.trace_id", "self.identifier"} | ({"scope"} if named else set())
-        if not need <= parts:
-            ob.fail(init, pv[0], f"log prefix of a {'named' if named else 'nameless'} scope lacks {sorted(need - parts)}")
-    emits = calls_to(an, slog, "logging.Logger.log")
-    dl = Deps(prog, slog)
-    lp = slog.param_names()
-    if len(emits) != 1:
-        ob.fail(slog, None, f"ScopeMetrics.log emits {len(emits)} records per call (must be exactly one)")
-    else:
-        from ..kinds import normal_only
-
-        gl = an.cfg(slog)
-        en = [n for n in gl.nodes if n.kind == "call" and n.ast is emits[0]]
-        w = gl.must_pass(lambda n: n in en, exits=("exit-return",), skip_edge=normal_only)
-        if w is not None:
-            ob.fail(slog, emits[0], "a path through ScopeMetrics.log returns without handing the record to the logger (level filtering belongs to the logger at call time): a message the logger would accept is lost", CFG.show_path(w))
-    for c in emits:
-        ob.inst(slog, c)
-        if dotted(c.func.value) != "self._logger":  # type: ignore[union-attr]
-            ob.fail(slog, c, "the record does not go to the scope's logger")
-        ok = len(c.args) == 3 and is_name(c.args[0], lp[1]) and isinstance(c.args[2], ast.Starred) and is_name(c.args[2].value, slog.node.args.vararg.arg)
-        ev = next((k.value for k in c.keywords if k.arg == "exc_info"), None)
-        if not ok or not is_name(ev, "exception"):
-            ob.fail(slog, c, "level / *args / exception are not passed on to the logger unchanged")
-        fmt = dl.inline(c.args[1]) if len(c.args) > 1 else None
-        dd = dl.of(c.args[1]) if len(c.args) > 1 else frozenset()
-        if not ("attr:self._logger_prefix" in dd and f"param:{lp[2]}" in dd):
-            ob.fail(slog, c, "the emitted text does not contain both the scope prefix and the message")
-        elif isinstance(fmt, ast.JoinedStr):
-            order = []
-            for v in fmt.values:
-                if isinstance(v, ast.FormattedValue):
-                    dv = dl.of(v.value)
-                    order.append("prefix" if "attr:self._logger_prefix" in dv else ("message" if f"param:{lp[2]}" in dv else ""))
-            order = [o for o in order if o]
-            if order[:1] != ["prefix"] or "message" not in order:
-                ob.fail(slog, c, "the message is not prefixed by the scope tag")
-
-    # ------------------------------------------------------------------ C19.6 formatting characters in the tag
-    ob = an.ob("C19.6", "taint K5+K10", "scope name / trace id (untrusted text) never reach the %-format string of Logger.log unescaped when format arguments are passed (API_FACT 9)", [f"{SM}.log"])
-    gl_ = an.cfg(slog)
-    argsname = slog.node.args.vararg.arg
-
-    def base_args(x: ast.AST):
-        if is_name(x, argsname):
-            return ["arg"]
-        return NOVALUE
-
-    sc_args = Scenario(gl_, dl, base_args)
-    for c in emits:
-        ob.inst(slog, c)
-        if len(c.args) > 1 and _tainted(dl, c.args[1], argsname, sc_args):
-            ob.fail(slog, c, "a `%` in the scope name or trace id corrupts %-formatting when the message has arguments: the line is lost (e.g. scope '100%s done', ctx.log_info('x %s', 'y'))")
-
-
-def _tainted(d: Deps, e: ast.AST, args_name: str, sc, depth: int = 6) -> bool:
-    """Can the raw prefix reach this (format-position) expression when *args is non-empty?
-    `sc` is the Scenario 'args is non-empty' of ScopeMetrics.log (selects the reachable definitions of locals)."""
-    e = unwrap(e)
-    if depth < 0 or e is None:
-        return True
-    if isinstance(e, ast.Attribute) and dotted(e) == "self._logger_prefix":
-        return True
-    if isinstance(e, ast.Call) and isinstance(e.func, ast.Attribute) and e.func.attr == "replace" and len(e.args) == 2:
-        a, b = e.args
-        if isinstance(a, ast.Constant) and a.value == "%" and isinstance(b, ast.Constant) and b.value == "%%":
-            return False
-    if isinstance(e, ast.IfExp):
-        t = eval_expr(e.test, sc.env)
-        if t is NOVALUE:
-            return _tainted(d, e.body, args_name, sc, depth - 1) or _tainted(d, e.orelse, args_name, sc, depth - 1)
-        return _tainted(d, e.body if t else e.orelse, args_name, sc, depth - 1)
-    if isinstance(e, ast.Name):
-        vals = sc.values_of(e.id)
-        if not vals:
-            sv = d.single_value(e.id)
-            vals = [sv] if sv is not None else []
-        return any(_tainted(d, v, args_name, sc, depth - 1) for v in vals)
-    if isinstance(e, (ast.JoinedStr, ast.BinOp, ast.FormattedValue, ast.Call, ast.BoolOp)):
-        return any(_tainted(d, ch, args_name, sc, depth - 1) for ch in ast.iter_child_nodes(e) if isinstance(ch, ast.expr))
-    return False
+                    rows.append({"situation": situation, "ctor": cn, "kw": kw, "logger": fl, "trace_id": ft, "given_logger": given_logger, "given_tid": given_tid, "has_current": has_current, "parent_done": parent_done, "CUR": CUR})
+    an._scope_construction = rows  # type: ignore[attr-defined]
+    return rows
 
 
 def _show(v: object) -> str:
